@@ -104,14 +104,70 @@ class Trace:
         self._lift_cache[k] = out
         return out
 
+    def cm_split(self, call):
+        """For a `with cm(...)` item whose callee is a generator context manager:
+        (enter-part effects, exit-part effects on normal resume, exit-part effects on throw),
+        obtained from the manager's own paths split at its yield and lifted to this caller."""
+        k = ("cm", id(call))
+        if k in self._lift_cache:
+            return self._lift_cache[k]
+        res = None
+        tgs = self.ctx.R.resolve_call(call, self.f, count=False)
+        if len(tgs) == 1 and tgs[0].kind == "def" and tgs[0].func.is_ctxmgr and id(call) in self._with_items():
+            g = tgs[0].func
+            gt = Trace(self.ctx, g)
+            parts = ([], [], [])
+            seen = (set(), set(), set())
+            ok = True
+            for p in self.ctx.X.paths(g):
+                idx = 0
+                for ev in p.events:
+                    if ev.k == "yield":
+                        idx = 1 if ev.a == "resume" else 2
+                        continue
+                    if ev.k in ("call", "src") and ev.a != "ok":
+                        continue
+                    for e in gt.at(ev):
+                        e2 = self.ctx.E.lift(e, call, tgs[0], self.f)
+                        if e2 is None:
+                            continue
+                        key = (e2.op, e2.state, e2.loc, id(e2.node))
+                        if key not in seen[idx]:
+                            seen[idx].add(key)
+                            parts[idx].append(e2)
+            res = parts
+        self._lift_cache[k] = res
+        return res
+
+    def _with_items(self):
+        if not hasattr(self, "_wi"):
+            from .model import walk_shallow
+            self._wi = {}
+            for n in walk_shallow(self.f.node):
+                if isinstance(n, ast.With):
+                    for it in n.items:
+                        self._wi[id(it.context_expr)] = n
+        return self._wi
+
     def at(self, ev):
         """Effects happening at event ev (in order: inner reads, lifted callee effects, own primitive)."""
         out = []
         n = ev.node
+        if ev.k == "with_exit":
+            for it in n.items:
+                if isinstance(it.context_expr, ast.Call):
+                    sp = self.cm_split(it.context_expr)
+                    if sp is not None:
+                        out.extend(sp[1] if ev.a == "normal" else sp[2] if ev.a == "raise" else sp[1] + sp[2])
+            return out
         if ev.k in ("call", "src") and ev.a == "ok":
             out.extend(self.by_node.get(id(n), ()))
             if ev.k == "call":
-                out.extend(self.lifted(n))
+                sp = self.cm_split(n) if isinstance(n, ast.Call) else None
+                if sp is not None:
+                    out.extend(sp[0])
+                else:
+                    out.extend(self.lifted(n))
         elif ev.k == "stmt":
             for e in self._inner:
                 if contains(n, e.node):
